@@ -1,7 +1,9 @@
 (** non-vacuity for C12: concrete instances meeting the hypotheses of each main theorem *)
 From Coq Require Import List NArith ZArith Bool Lia.
 From ApiFu Require Import Cplx.Tables Cplx.ParserDepthModel Cplx.MergeCountModel Cplx.CostWalkCount
-     Cplx.ComplexityDecode Cplx.ComplexitySpec Cplx.ParserDepthProofs Cplx.CostWalkProofs Cplx.MergeFamily.
+     Cplx.ComplexityDecode Cplx.ComplexitySpec Cplx.ParserDepthProofs Cplx.CostWalkProofs Cplx.MergeFamily
+     Cplx.FragmentWalkCount Cplx.SpreadLists Cplx.MergeLowerBound Cplx.CostWalkPaths.
+From ApiFu Require Base.Sexp Lex.LexModel Cplx.TokenClass Cplx.ParseFromBytes.
 Import ListNotations.
 Open Scope Z_scope.
 
@@ -100,4 +102,52 @@ Proof. eexists. split; [vm_compute; reflexivity|]. repeat split. Qed.
 
 Example merge_family_inserts :
   match merge_run true (merge_family 4) with MOk st => m_inserts st = 26 /\ n_can st = 31 | _ => False end.
+Proof. vm_compute. split; reflexivity. Qed.
+
+(** ** stage B *)
+
+(** [mfam] (function-indexed tables, used for the all-n theorem) and [merge_family] (the harness's
+    numbering) are the same document up to renumbering: same call counts with and without the sets *)
+Example mfam_same_counts :
+  map (fun n => match merge_run false (mfam n) with MOk st => n_shape st | _ => -1 end) (seq 1 5) = [6; 71; 632; 5027; 37574]
+  /\ map (fun n => match merge_run true (mfam n) with MOk st => n_shape st | _ => -1 end) (seq 1 5) = [3; 19; 47; 75; 103]
+  /\ map pw (seq 0 6) = [1; 2; 13; 79; 475; 2851].
+Proof. vm_compute. repeat split; reflexivity. Qed.
+
+(** [spreads_ok] holds on the families (as on every harness-built document), and the two fragment walks
+    with their bounds *)
+Example spreads_ok_instances :
+  forallb (fun n => spreads_ok (merge_family n) && spreads_ok (cost_family n)) (seq 0 8) = true
+  /\ map (fun n => (match cycle_search_run (merge_family n) with Some w => w_steps w | None => -1 end,
+                    cycle_steps_bound (merge_family n),
+                    match var_walk_run (merge_family n) with Some k => k | None => -1 end,
+                    var_steps_bound (merge_family n))) [2; 10]%nat
+     = [(12, 39, 38, 44); (132, 495, 150, 172)].
+Proof. vm_compute. split; reflexivity. Qed.
+
+(** a table in which two definitions share a selection set is not a syntax tree: [spreads_ok] rejects it *)
+Example spreads_ok_rejects_shared_sets :
+  spreads_ok {| d_fields := []; d_sets := [[ISpread 1]; [ISpread 1; ISpread 1]]%N; d_order := [];
+                d_frags := [ {| fr_name := 1; fr_root := 1; fr_nodes := 3; fr_hdr := 2 |};
+                             {| fr_name := 2; fr_root := 1; fr_nodes := 3; fr_hdr := 2 |} ]%N;
+                d_ops := [{| op_root := 0; op_nodes := 3; op_hdr := 1 |}]; d_nodes := 9 |} = false.
+Proof. vm_compute. reflexivity. Qed.
+
+(** spread paths: the chain with two spreads per level, and a document whose fragment bodies are flat *)
+Example paths_instances :
+  let D := cost_family 3 in
+  paths (arr_of_list (d_fields D)) (arr_of_list (d_sets D)) (frag_table D) (cost_fuel D) 0%N = 15
+  /\ occurrences (arr_of_list (d_fields D)) (arr_of_list (d_sets D)) (cost_fuel D) 0%N = 1
+  /\ (let D0 := cost_family 0 in
+      paths (arr_of_list (d_fields D0)) (arr_of_list (d_sets D0)) (frag_table D0) (cost_fuel D0) 0%N = 1
+      /\ occurrences (arr_of_list (d_fields D0)) (arr_of_list (d_sets D0)) 5 1%N = 0).
+Proof. vm_compute. repeat split; reflexivity. Qed.
+
+(** from bytes: "{a ...on}" *)
+Example from_bytes_instance :
+  let bs := [123; 97; 32; 46; 46; 46; 111; 110; 125]%N in
+  match Lex.LexModel.lex false bs with
+  | Lex.LexModel.Done ts es => map TokenClass.tok_class ts = [TLBrace; TName; TEllipsis; TOn; TRBrace] /\ es = []
+  | _ => False
+  end.
 Proof. vm_compute. split; reflexivity. Qed.
